@@ -1934,3 +1934,11 @@ MA('C17', 'discretized element() enforces the default order for arrays',
    'return self.element_type(self, self.tspace.element(inp, order=order))',
    'return self.element_type(self, self.tspace.element(inp, order=order or self.default_order))',
    'DiscretizedSpace.element(ndarray)')
+MA('C19', 'rotation between two plane vectors loses its sense',
+   'odl/tomo/util/utility.py', 'rotation_matrix_from_to',
+   'angle = np.sign(np.dot(from_rot, to_vec)) * np.arccos(np.dot(from_vec, to_vec))',
+   'angle = np.arccos(np.dot(from_vec, to_vec))', 'R9')
+MA('C19', 'rotation in space uses the binormal with the wrong sign',
+   'odl/tomo/util/utility.py', 'rotation_matrix_from_to',
+   'binormal = np.cross(normal, from_vec)',
+   'binormal = np.cross(from_vec, normal)', 'R9')
